@@ -13,6 +13,10 @@
 #include <malloc.h>
 #endif
 
+#ifdef KENTBECK_BPLUSTREE3_VERIF
+size_t verif_nodes_created = 0, verif_nodes_freed = 0, verif_temp_allocs = 0, verif_temp_frees = 0;
+#endif
+
 /* Fast comparison function with type-specific optimizations */
 int fast_compare_lt(PyObject *a, PyObject *b) {
     /* Fast path for integers */
@@ -103,6 +107,9 @@ BPlusNode* node_create(NodeType type, uint16_t capacity) {
         PyErr_NoMemory();
         return NULL;
     }
+#ifdef KENTBECK_BPLUSTREE3_VERIF
+    ++verif_nodes_created;
+#endif
     
     /* Initialize metadata */
     node->num_keys = 0;
@@ -359,6 +366,9 @@ void* cache_aligned_alloc(size_t size) {
 }
 
 void cache_aligned_free(void* ptr) {
+#ifdef KENTBECK_BPLUSTREE3_VERIF
+    if (ptr) ++verif_nodes_freed;   /* only node blocks come from cache_aligned_alloc */
+#endif
 #ifdef _WIN32
     _aligned_free(ptr);
 #else
